@@ -75,7 +75,14 @@ class TracingReadIO(io.FileIO):
 
     def readinto(self, b):
         if self._shim.active:
-            self._shim.op("read", self._label, ["EIO"])
+            k = self._shim.read_choice(self._label, len(b))
+            if k is not None:
+                # a short read of the raw layer (legal for a raw file object;
+                # a buffered reader asks again until its buffer is full)
+                tmp = bytearray(k)
+                n = super().readinto(tmp)
+                b[:n] = tmp[:n]
+                return n
         return super().readinto(b)
 
     def read(self, size=-1):
@@ -113,7 +120,8 @@ class _Names:
 
 class FsShim:
     def __init__(self, run, sandbox, focus=None, write_ks="sample",
-                 fault_reads=True, read_faults=False, crashes=True):
+                 fault_reads=True, read_faults=False, crashes=True,
+                 short_reads=False, list_faults=False):
         self.run = run
         self.sandbox = os.path.realpath(sandbox)
         self.focus = os.path.realpath(focus) if focus else None
@@ -128,6 +136,8 @@ class FsShim:
         self.write_ks = write_ks
         self.fault_reads = fault_reads
         self.read_faults = read_faults
+        self.short_reads = short_reads
+        self.list_faults = list_faults
         self.crashes = crashes
 
     # ---------------------------------------------------------------- utils
@@ -190,6 +200,23 @@ class FsShim:
         if alts[c] == "crash":
             self.crash(label, "before-" + kind)
         self.fail(label, f"{kind}:{alts[c]}", alts[c])
+
+    def read_choice(self, label, n):
+        """Choice point for one raw read of up to n bytes: proceed, EIO, or
+        (with short_reads) hand back fewer bytes than asked for."""
+        if self.crashed:
+            raise CrashSignal()
+        self.log.append(("read", label))
+        alts = ["proceed", "EIO"]
+        if self.short_reads:
+            alts += [k for k in (1, 4096) if k < n]
+        c = self.run.choose(len(alts), f"read:{label}")
+        if c == 0:
+            return None
+        if alts[c] == "EIO":
+            self.fail(label, "read:EIO", "EIO")
+        self.fault = (label, f"short-read-{alts[c]}-of-{n}")
+        return alts[c]
 
     def do_write(self, label, data, raw_write):
         if self.crashed:
@@ -365,6 +392,27 @@ class FsShim:
         os.replace = self._two("os_replace", "replace", ["EACCES", "EXDEV"])
         os.link = self._two("os_link", "link", ["EACCES", "EXDEV"])
         os.symlink = self._two("os_symlink", "symlink", ["EACCES"])
+        if self.list_faults:
+            # a directory that cannot be listed (EACCES): os.listdir serves
+            # Path.iterdir, os.scandir serves os.walk
+            self.saved["listdir"] = os.listdir
+            self.saved["scandir"] = os.scandir
+            real_listdir, real_scandir = os.listdir, os.scandir
+
+            def listdir(path="."):
+                rp = self._inside(path) if self.active and \
+                    not isinstance(path, int) else None
+                if rp is not None:
+                    self.op("listdir", self._label(rp), ["EACCES"])
+                return real_listdir(path)
+
+            def scandir(path="."):
+                rp = self._inside(path) if self.active and \
+                    not isinstance(path, int) else None
+                if rp is not None:
+                    self.op("listdir", self._label(rp), ["EACCES"])
+                return real_scandir(path)
+            os.listdir, os.scandir = listdir, scandir
         shutil._USE_CP_SENDFILE = False
         tempfile._io = _IoProxy(self)
         tempfile._name_sequence = _Names()
@@ -399,6 +447,9 @@ class FsShim:
         os.replace = _real["os_replace"]
         os.link = _real["os_link"]
         os.symlink = _real["os_symlink"]
+        if "listdir" in self.saved:
+            os.listdir = self.saved["listdir"]
+            os.scandir = self.saved["scandir"]
         shutil._USE_CP_SENDFILE = self.saved["copy_sendfile"]
         tempfile._io = self.saved["tempfile_io"]
         tempfile._name_sequence = self.saved["names"]
